@@ -136,7 +136,17 @@ class StmtMixin(ContractMixin):
         return None
 
     def st_yield(self, node, st):
-        raise Unsupported("yield")
+        """Generators: the sequence of yields is ghost state (concrete yields in order, plus the
+        abstract yield lists of nested generator calls)."""
+        ys = list(st.ghost.get("__yields__", ()))
+        if isinstance(node, ast.Yield):
+            v = self.ev(node.value, st) if node.value is not None else VNone()
+            ys.append(("one", v))
+        else:
+            v = self.ev(node.value, st)
+            ys.append(("from", v))
+        st.ghost["__yields__"] = tuple(ys)
+        return None
 
     def st_Import(self, s, st):
         for a in s.names:
